@@ -63,7 +63,7 @@ def file_options(dest, user=b"root", group=b"root", mode=0o100644, flags=0, veri
                                               Adt("FileFlags", "bits", [Int(flags, "u32")]), Bool_(False), Adt("Option", "None"), Adt("FileVerifyFlags", "bits", [Int(verify, "u32")])])
 
 
-def build_package(ctx, e, files, source_date=None, setters=()):
+def build_package(ctx, e, files, source_date=None, setters=(), late_source_date=False):
     """PackageBuilder::new(..).compression(None)[.source_date(sd)] + add_data per file + build(), all from MIR.
     files: [(destination bytes, user, group, content byte terms, mtime term)]"""
     comp = ctx.impl_fn("compression", None, "PackageBuilder")
@@ -72,7 +72,7 @@ def build_package(ctx, e, files, source_date=None, setters=()):
     clock_stub(e, not_before=source_date)
     b = builder_new(ctx, e)
     b = e.call_fn(comp, [b, Adt("CompressionWithLevel", "None")])
-    if source_date is not None:
+    if source_date is not None and not late_source_date:
         b.fields[_field_index("PackageBuilder", "source_date")] = intrinsics3.some(Adt("Timestamp", "Timestamp", [Int(source_date, "u32")]))
     for name, args in setters:
         b = e.call_fn(ctx.impl_fn(name, None, "PackageBuilder"), [b] + list(args))
@@ -82,6 +82,9 @@ def build_package(ctx, e, files, source_date=None, setters=()):
                             file_options(dest, user, group)])
         if r.variant != "Ok":
             raise Unsupported("harness: add_data rejected %r" % (dest,))
+    if source_date is not None and late_source_date:
+        # .source_date(..) called after the files were added (the order the crate's documentation example uses)
+        cell.v.fields[_field_index("PackageBuilder", "source_date")] = intrinsics3.some(Adt("Timestamp", "Timestamp", [Int(source_date, "u32")]))
     return e.call_fn(build, [cell.v])
 
 
@@ -127,7 +130,7 @@ def _env_vars(exprs):
     return out
 
 
-def c11_repro(ctx, owners, sym_owner_chars=0):
+def c11_repro(ctx, owners, sym_owner_chars=0, dests=None, late_source_date=False):
     """owners: one (user, group) pair of literal names per file.  Two runs of the same configuration = the same inputs under two independent
     environments (clock readings, hash-set iteration orders): the written bytes must be equal; and no time stamp exceeds the source date."""
     ex = Exec(ctx.funcs, intrinsics.I, max_steps=4000000)
@@ -135,6 +138,7 @@ def c11_repro(ctx, owners, sym_owner_chars=0):
     ctx.bounds = ("PackageBuilder::new .. build() from MIR with %d file(s) owned by %s, one symbolic content byte and a symbolic modification time each, symbolic source date, no compression; "
                   "environment = clock readings (arbitrary but not before the source date, fresh per call) and HashSet iteration order (arbitrary permutation per iteration)" % (len(owners), ", ".join("%s:%s" % (u.decode(), g.decode()) for u, g in owners)))
     runs = []
+    shape = dict(dests=[d.decode() for d in dests] if dests else [], late=bool(late_source_date))
 
     def setup(e):
         d = dict(sd=z3.BitVec("source_date", 32), mt=[z3.BitVec("mtime_%d" % i, 32) for i in range(len(owners))], c=[z3.BitVec("content_%d" % i, 8) for i in range(len(owners))])
@@ -145,8 +149,8 @@ def c11_repro(ctx, owners, sym_owner_chars=0):
 
     def body(e, inp):
         own = inp.get("own") or owners
-        files = [(b"/d/f%d" % i, u, g, [inp["c"][i]], inp["mt"][i]) for i, (u, g) in enumerate(own)]
-        r = build_package(ctx, e, files, source_date=inp["sd"])
+        files = [((dests[i] if dests else b"/d/f%d" % i), u, g, [inp["c"][i]], inp["mt"][i]) for i, (u, g) in enumerate(own)]
+        r = build_package(ctx, e, files, source_date=inp["sd"], late_source_date=late_source_date)
         if r.variant != "Ok":
             return r, None, None
         pkg = r.fields[0]
@@ -155,7 +159,7 @@ def c11_repro(ctx, owners, sym_owner_chars=0):
     def on_path(e, inp, out):
         k, v = out
         if k != "return":
-            ctx.fail("building panics: %s" % (v,), "PackageBuilder::build", kind="c11panic", owners=[[u.decode(), g.decode()] for u, g in owners])
+            ctx.fail("building panics: %s" % (v,), "PackageBuilder::build", kind="c11panic", owners=[[u.decode(), g.decode()] for u, g in owners], **shape)
             return
         r, bs, pkg = v
         ctx.cover("package built", r.variant == "Ok")
@@ -170,7 +174,7 @@ def c11_repro(ctx, owners, sym_owner_chars=0):
             if t in (tag("RPMTAG_BUILDTIME"), tag("RPMTAG_FILEMTIMES")):
                 for x in ent.fields[1].fields[0].items:
                     if e._check(z3.UGT(x.e, inp["sd"])):
-                        ctx.fail("a time stamp in the package is later than the source date (tag %d)" % t, "PackageBuilder::build", kind="c11clamp", owners=[[u.decode(), g.decode()] for u, g in owners])
+                        ctx.fail("a time stamp in the package is later than the source date (tag %d)" % t, "PackageBuilder::build", kind="c11clamp", owners=[[u.decode(), g.decode()] for u, g in owners], **shape)
                         return
 
     ex.run_all(setup, body, on_path)
@@ -239,7 +243,7 @@ def c11_repro(ctx, owners, sym_owner_chars=0):
             s.pop()
             if pos is not None:
                 ctx.fail("two builds of the same configuration differ (environment: hash-set iteration order / clock)", "PackageBuilder::build", kind="c11diff",
-                         owners=[[u.decode(), g.decode()] for u, g in owners], first_difference_at=pos, lengths=[len(b1), len(b2r)])
+                         owners=[[u.decode(), g.decode()] for u, g in owners], first_difference_at=pos, lengths=[len(b1), len(b2r)], **shape)
                 ctx.extra.update(stats)
                 ctx.extra["environments"] = len(runs)
                 return
@@ -250,13 +254,16 @@ def c11_repro(ctx, owners, sym_owner_chars=0):
 HARNESSES["c11_repro_root1"] = lambda ctx: c11_repro(ctx, [(b"root", b"root")])
 HARNESSES["c11_repro_user1"] = lambda ctx: c11_repro(ctx, [(b"a", b"g")])
 HARNESSES["c11_repro_user2"] = lambda ctx: c11_repro(ctx, [(b"a", b"g"), (b"b", b"h")])
+HARNESSES["c11_repro_dirs2"] = lambda ctx: c11_repro(ctx, [(b"root", b"root"), (b"root", b"root")], dests=[b"/d/f0", b"/e/f1"])
+HARNESSES["c11_repro_dirs3"] = lambda ctx: c11_repro(ctx, [(b"root", b"root"), (b"a", b"g"), (b"root", b"root")], dests=[b"/d/f0", b"/e/f1", b"/c/x/f2"])
+HARNESSES["c11_repro_late_sd"] = lambda ctx: c11_repro(ctx, [(b"root", b"root"), (b"a", b"g")], late_source_date=True)
 HARNESSES["c11_repro_user3"] = lambda ctx: c11_repro(ctx, [(b"a", b"g"), (b"b", b"h"), (b"c", b"g")])
 HARNESSES["c11_repro_sym2"] = lambda ctx: c11_repro(ctx, [(b"?", b"?"), (b"?", b"?")], sym_owner_chars=1)
 
 
 def replay_c11(ctx, fl):
     owners = ",".join("%s:%s" % (u, g) for u, g in fl.get("owners", []))
-    ans = ctx.native.ask("repro", owners or "-", fl.get("kind", ""))
+    ans = ctx.native.ask("repro", owners or "-", ",".join(fl.get("dests") or []) or "-", "late" if fl.get("late") else "early")
     if fl.get("kind") == "c11panic":
         return ans.startswith("panic"), "real crate: " + ans
     if fl.get("kind") == "c11clamp":
@@ -467,6 +474,10 @@ def c06_strings(ctx, fields, nchars=1):
 
 
 def replay_c06(ctx, fl):
+    if fl.get("kind") == "c06w":
+        ans = ctx.native.ask("with_file_mode", str(fl.get("st_mode", 0o100644) & 0o7777), str(fl.get("perm", 0)) if fl.get("explicit") else "-")
+        return not ans.startswith("same"), "real crate: with_file over a source file chmod-ed to %o%s, then get_file_entries -> %s" % (
+            fl.get("st_mode", 0) & 0o7777, (" with .mode(%o)" % (0o100000 | fl.get("perm", 0))) if fl.get("explicit") else "", ans[:100])
     if fl.get("kind") in ("c06s", "c06d", "c06f"):
         which = {"c06s": "scriptlets_prog" if fl.get("with_prog") else "scriptlets_plain", "c06d": "deps", "c06f": "files"}[fl["kind"]]
         ans = ctx.native.ask("readback2", which)
@@ -737,3 +748,66 @@ def replay_c07(ctx, fl):
 REPLAYERS["c07"] = replay_c07
 for _sz in ((0,), (1,), (3,), (4,), (5,), (2, 3), (4, 0), (1, 2, 3)):
     HARNESSES["c07_rt_" + "_".join(map(str, _sz))] = (lambda sz: (lambda ctx: c07_roundtrip(ctx, sz)))(_sz)
+
+
+def c06_with_file(ctx, explicit_mode):
+    """PackageBuilder::with_file from MIR over a stubbed source file (content byte, st_mode, mtime symbolic): inherited or explicit mode, size, digest, mtime"""
+    ex = Exec(ctx.funcs, intrinsics.I, max_steps=4000000)
+    ctx.stats = ex.stats
+    ctx.bounds = ("PackageBuilder::with_file(source, FileOptions::new(\"/d/f\")%s) over a stubbed source file whose content byte, st_mode (any u32 with a regular-file type) and modification time "
+                  "(any u32 seconds) are symbolic; get_file_entries of the built package" % (".mode(m) with m any regular-file mode" if explicit_mode else ""))
+    from intrinsics2 import uf_digest
+    from harnesses_pkg import hexchars
+
+    def setup(e):
+        return dict(c=z3.BitVec("content", 8), st_mode=z3.BitVec("st_mode", 32), mt=z3.BitVec("mtime", 32), m=z3.BitVec("explicit_perm", 16))
+
+    def body(e, inp):
+        e.solver.add((inp["st_mode"] & 0o170000) == 0o100000, z3.ULE(inp["st_mode"], 0o177777), z3.ULE(inp["m"], 0o7777))
+        clock_stub(e)
+        intrinsics3.SRC_FILE[0] = ([inp["c"]], inp["st_mode"], z3.ZeroExt(32, inp["mt"]))
+        b = builder_new(ctx, e)
+        b = e.call_fn(ctx.impl_fn("compression", None, "PackageBuilder"), [b, Adt("CompressionWithLevel", "None")])
+        fo = file_options(b"/d/f")
+        fo.fields[6] = Bool_(not explicit_mode)            # inherit_permissions
+        if explicit_mode:
+            fo.fields[4] = Adt("FileMode", "Regular", [Int(inp["m"], "u16")])
+        r = e.call_fn(ctx.impl_fn("with_file", None, "PackageBuilder"), [b, Str.lit(b"src"), fo])
+        if r.variant != "Ok":
+            return r, None
+        r2 = e.call_fn(ctx.impl_fn("build", None, "PackageBuilder"), [r.fields[0]])
+        meta = r2.fields[0].fields[0]
+        return r2, e.call_fn(ctx.impl_fn("get_file_entries", None, "PackageMetadata"), [Ref(Cell(meta))])
+
+    def on_path(e, inp, out):
+        k_, v = out
+        if k_ != "return":
+            ctx.fail("adding a file or building panics: %s" % (v,), "PackageBuilder::with_file", kind="c06w", explicit=explicit_mode)
+            return
+        r, fes = v
+        ctx.cover("package built", r.variant == "Ok")
+        if r.variant != "Ok" or fes is None or fes.variant != "Ok" or len(fes.fields[0].items) != 1:
+            ctx.fail("a readable regular source file is not packaged", "PackageBuilder::with_file", kind="c06w", explicit=explicit_mode)
+            return
+        fe = intrinsics.deref_all(e, fes.fields[0].items[0])
+        mode, mtime, size, digest = fe.fields[1], fe.fields[3], fe.fields[4], fe.fields[6]
+        want_perm = inp["m"] if explicit_mode else z3.Extract(15, 0, inp["st_mode"]) & 0o7777
+
+        def wit():
+            m = e.solver.model() if e.solver.check() == z3.sat else None
+            return dict(explicit=explicit_mode, st_mode=m.eval(inp["st_mode"], model_completion=True).as_long() if m else 0, perm=m.eval(inp["m"], model_completion=True).as_long() if m else 0)
+        for what, cond in (("mode (%s)" % ("explicit" if explicit_mode else "inherited from the source file"), z3.BoolVal(False) if mode.variant != "Regular" else mode.fields[0].e == want_perm),
+                           ("modification time", mtime.fields[0].e == inp["mt"]), ("size", size.e == 1),
+                           ("content digest", z3.BoolVal(False) if digest.variant != "Some" else _eq_str(e, digest.fields[0].fields[0], Str(hexchars(uf_digest("sha256", [inp["c"]])))))):
+            if e._check(z3.Not(cond)):
+                e.solver.push()
+                e.solver.add(z3.Not(cond))
+                w = wit()
+                e.solver.pop()
+                ctx.fail("get_file_entries() does not return the %s of the packaged file" % what, "PackageBuilder::with_file", kind="c06w", field=what, **w)
+                return
+    ex.run_all(setup, body, on_path)
+
+
+HARNESSES["c06_with_file_inherit"] = lambda ctx: c06_with_file(ctx, False)
+HARNESSES["c06_with_file_explicit"] = lambda ctx: c06_with_file(ctx, True)
